@@ -43,6 +43,8 @@ inductive Fail where
 structure Cfg where
   swap : Bool := false
   cap : Nat := 16777216
+  /-- the stream cannot seek (a pipe, a socket, stdin): `fseek` answers ESPIPE -/
+  pipe : Bool := false
   deriving Repr, DecidableEq
 
 def INT_MAX : Int := 2147483647
@@ -81,10 +83,10 @@ def seek (delta : Int) : P Unit := fun _ pos =>
 
 /-- `sbdf_skip_bytes` on a stream that cannot seek (a pipe, a socket: `fseek` answers ESPIPE):
     the bytes are read and dropped.  On a stream that can seek it is `seek`. -/
-def discard (n : Int) : P Unit := fun d pos =>
-  match readN n.toNat d pos with
-  | .ok (_, pos') => .ok ((), pos')
-  | .error e => .error e
+def discard (n : Int) : P Unit := P.bind (readN n.toNat) (fun _ => P.pure ())
+
+/-- `sbdf_skip_bytes(f, n)`: `fseek(f, n, SEEK_CUR)`, and where the stream refuses, read and drop -/
+def skipBytes (c : Cfg) (n : Int) : P Unit := if c.pipe then discard n else seek n
 
 /-- `malloc(n)` of an input-derived size (`n` as the mathematical value of the `size_t`
     argument; a negative `int` converted to `size_t` is huge): refused above the cap. -/
